@@ -195,12 +195,19 @@ def run(tier):
     if p.returncode == 0 and (len(lls) != 2 or sorted(defined) != ["main", "two"]):
         ck.violation("ll-files:same-stem", "penne emit --out-dir out a.pn a.pen exits 0 but leaves %d .ll file(s) defining %s (one module's IR was overwritten by the other's)" % (len(lls), defined),
                      "cwd %s\npenne emit --out-dir out a.pn a.pen\nexit 0\nfiles: %s\nstdout: %s" % (e, lls, p.stdout.decode(errors="replace")[-400:]))
-    # absolute input path with --out-dir (D17)
+    # absolute input path with --out-dir (D17, repaired): the file is under D, where Model/OutPath.v says
     ab = os.path.join(d, "a.pn")
+    if os.path.exists(ab + ".ll"): os.remove(ab + ".ll")
+    shutil.rmtree(os.path.join(d, "outabs"), ignore_errors=True)
     p = subprocess.run([PENNE, "emit", "--out-dir", "outabs", ab], cwd=d, capture_output=True, timeout=120)
-    if p.returncode == 0 and not any(f.endswith(".ll") for dp, _, fs in os.walk(os.path.join(d, "outabs")) for f in fs):
-        ck.violation("ll-files:absolute-input-path", "penne emit --out-dir D /abs/path/a.pn exits 0 but writes nothing under D (it writes %s)" % (ab + ".ll"),
+    got = sorted(os.path.join(dp, f) for dp, _, fs in os.walk(os.path.join(d, "outabs")) for f in fs if f.endswith(".ll"))
+    pm = C.run_model([("llpath", "abs", "(outabs %s)" % ab)], ck.work + "/pathmodel-abs", jobs=1)
+    want = dict(x.split("=", 1) for x in pm.get("abs", "path=? pn=?").split(" "))["path"]
+    if p.returncode == 0 and not got:
+        ck.violation("ll-files:absolute-input-path", "penne emit --out-dir D /abs/path/a.pn exits 0 but writes nothing under D (%s exists: %s)" % (ab + ".ll", os.path.exists(ab + ".ll")),
                      "cwd %s\npenne emit --out-dir outabs %s\nexit 0; files under outabs: none; %s exists: %s" % (d, ab, ab + ".ll", os.path.exists(ab + ".ll")))
+    elif p.returncode == 0 and [os.path.relpath(x, d) for x in got] != [want]:
+        ck.violation("tie-broken:out-path", "an absolute module path: files written %s, Model/OutPath.v says %s" % (got, want), "cwd %s\npenne emit --out-dir outabs %s" % (d, ab))
     ck.log("cli: %d invocations %s, %d problems" % (len(runs), dict(stats), bad))
     if not proof_ok:
         ck.violation("tie-broken:proof", "Props/C18.v no longer checks", getattr(ck, "proof_output", "")[-2000:])
